@@ -1175,16 +1175,18 @@ def k4(ctx):
     ctx.require(len(calls) == 1, "decoder-not-called-once", n=len(calls))
     for fmt, data, max_length in calls:
         bounds = []                       # list of (guard, bound)
-        if isinstance(max_length, (int, S.SymInt)) and not isinstance(max_length, bool):
+        if isinstance(max_length, (int, S.SymInt)) and not isinstance(max_length, bool) \
+                and ctx.perturb != "bounds_ignored":
             if isinstance(max_length, S.SymInt) or max_length >= 0:
                 bounds.append((max_length >= 0, max_length))
-        if fmt == real_lzma.FORMAT_ALONE and ctx.perturb != "alone_header_ignored":
+        if fmt == real_lzma.FORMAT_ALONE and ctx.perturb != "bounds_ignored":
             hdr = S._from_bytes(data[5:13], "little")
             bounds.append((hdr != UNKNOWN_SIZE, hdr))
         info = dict(coder=coder, format=fmt, max_length=repr(max_length))
         ctx.require(OR(*[g for g, _ in bounds]) if bounds else False, "decompress-output-unbounded", **info)
         if declared is not None:
-            ctx.require(OR(*[AND(g, bnd <= declared) for g, bnd in bounds]) if bounds else False,
+            lim = declared - 1 if ctx.perturb == "declared_minus_one" else declared
+            ctx.require(OR(*[AND(g, bnd <= lim) for g, bnd in bounds]) if bounds else False,
                         "decompress-output-exceeds-declared-size", **info)
 
 
@@ -1355,7 +1357,7 @@ KERNELS = [
            k3_sites, targets=_k3_targets, strength="structure", core=False, choices=["site found by AST scan"]),
     Kernel("K4", "every LZMA / LZMA2 decompress call is output-bounded by the folder's declared unpack size",
            k4, targets=_k4_targets, parts=_k4_parts,
-           perturb=[("alone_header_ignored", {"coder": "lzma", "assume_known_size": True})],
+           perturb=[("bounds_ignored", {"coder": "lzma2"}), ("declared_minus_one", {"coder": "lzma", "assume_known_size": True})],
            stubs=["lzma as seen from sevenzip -> LZMADecompressor recording format, filters and the arguments of "
                   "decompress()", "struct.pack('<Q', symbolic) -> eight byte terms (symbolic runs)"],
            symbolic=["declared unpack size in [0, 2^64)", "the five LZMA property bytes",
